@@ -8,7 +8,7 @@ import vf
 from circ_props import BUILD as CBUILD, run_histories, replay_case, jsonable
 
 WANT = {'pickle'}
-BUILD = dict(extracted=['circuit'], translators={'gen_fields'}, props=['C16'])
+BUILD = dict(extracted=['circuit', 'ptable'], translators={'gen_fields'}, props=['C16'])
 
 
 def classify(f):
@@ -26,20 +26,27 @@ def run(ctx: vf.Ctx):
     have_pd = (vf.COQ / 'props' / 'C16pd.v').exists()
     props = ['C16'] + (['C16pd'] if have_pd else [])
     ctx.uses_translators = {'gen_fields'} if (vf.ROOT / 'harness' / 'gen' / 'gen_fields.py').exists() else set()
-    ctx.build(extracted=['circuit'], translators=ctx.uses_translators, props=props)
+    ctx.build(extracted=['circuit', 'ptable'], translators=ctx.uses_translators, props=props)
     ctx.rule = ('(a) random editing histories on the real Circuit; every third step the circuit is pickled/unpickled and copied and '
                 'compared (cycle layout, parameters, ==, views); the marshalled cycles of __reduce__ are compared with the Coq model '
                 '`reduce`; (b) copy/become independence probes; (c) catalogue sweep: every gate class exported by bqskit.ir.gates x '
                 'constructor grid, Operation, CouplingGraph, GateSet, MachineModel, PassData with every reserved and user key, Workflows '
-                'nesting every control pass, RuntimeTask payloads: pickle (and dill) round trip, ==, hash, unitary. '
+                'nesting every control pass, RuntimeTask payloads: pickle (and dill) round trip, ==, hash, unitary; '
+                '(d) variant families (harness/c16_families.py): for every composed/parameterised gate class, sets of gates of one class and the same '
+                'radixes differing in exactly one constructor argument (control levels, power, frozen index/value, tag, level maps, locations, inner gate, '
+                'inner circuit), plus every such group found in the catalogue: pairwise hash/== injectivity (hypothesis of C16_gate_table_roundtrip) and '
+                'circuits / nested CircuitGates holding the whole family through pickle, dill, copy, become, compared per operation on constructor state, '
+                'unitary, ==, hash, gate_set; the real __reduce__ gate table compared with the extracted model. '
                 'non-trivial = object with content; distinct by canonical text')
     ctx.assumptions += ['pickle/dill themselves are trusted', 'CachedClass identity is checked, not modelled']
-    ctx.trusted = ['Coq 8.16.1 kernel', 'ExtrOcamlBasic extraction + circuit_driver.ml', 'harness snapshot through the public read API',
+    ctx.trusted = ['Coq 8.16.1 kernel', 'ExtrOcamlBasic extraction + circuit_driver.ml + ptable_driver.ml', 'harness/c16_families.py describe() (gate identity by class + __dict__)', 'harness snapshot through the public read API',
                    'harness/gen/gen_fields.py (field translator, see C11 notes)']
     results = run_histories(ctx, WANT, ctx.n(200, 6000), ctx.n(25, 40), classify)
     reduce_correspondence(ctx, results)
     copy_become_probes(ctx)
-    catalogue(ctx)
+    objs = catalogue(ctx)
+    import c16_families
+    c16_families.run(ctx, objs)
     passdata_fields(ctx)
 
 
@@ -306,6 +313,7 @@ def catalogue(ctx):
         missing = [k for k in ('placement', 'initial_mapping', 'final_mapping', 'error', 'seed') if getattr(pd, k) != getattr(r, k)]
         ctx.violation(dict(call='PassData.become', missing=','.join('_' + m for m in missing)), 'PassData with every reserved key', 'equal in every field', missing, 'PassData.become does not copy ' + ','.join(missing))
     workflows(ctx)
+    return objs
 
 
 def workflows(ctx):
@@ -388,4 +396,13 @@ def passdata_fields(ctx):
 
 
 def replay(ctx: vf.Ctx, data):
+    case = data.get('case')
+    if isinstance(case, dict) and case.get('kind') == 'family':
+        import c16_families
+        objs = []
+        if str(case.get('family', '')).startswith('auto:'):
+            quiet = vf.Ctx(ctx.prop, ctx.tier, ctx.seed)
+            objs = catalogue(quiet)
+        c16_families.replay(ctx, data, objs)
+        return
     replay_case(ctx, data, WANT, classify)
